@@ -537,6 +537,9 @@ func (c *HostClient) doNonNilReqResp(req *protocol.Request, resp *protocol.Respo
 	customSkipBody := resp.SkipBody
 	resp.Reset()
 	resp.SkipBody = customSkipBody
+	// SkipBody may be switched on below for this exchange only (HEAD, CONNECT): hand the
+	// caller's own setting back, otherwise it would leak into the next Do with this resp.
+	defer func() { resp.SkipBody = customSkipBody }()
 
 	if c.DisablePathNormalizing {
 		req.URI().DisablePathNormalizing = true
